@@ -108,6 +108,7 @@ pub fn gen_queries(s: &mut Src, b: &Built, cmds: &CmdOut, n: usize) -> Vec<GenQu
         let steps = s.weighted(&[2, 4, 4, 3, 2, 1]);
         let mut alive = true;
         let mut kind = "walk";
+        let mut trail: Vec<usize> = vec![];
         for k in 0..steps {
             let row: Vec<(&Sym, &usize)> = b.dfa.trans[q].iter().collect();
             if row.is_empty() {
@@ -141,11 +142,17 @@ pub fn gen_queries(s: &mut Src, b: &Built, cmds: &CmdOut, n: usize) -> Vec<GenQu
                         kind = "truncated_word";
                     } else {
                         words.push(w);
+                        trail.push(q);
                         q = *r;
                     }
                 }
                 _ => break,
             }
+        }
+        // a walk that ran into a state where nothing can follow says little: usually step back one word
+        if alive && b.dfa.trans[q].is_empty() && !trail.is_empty() && trail.len() == words.len() && s.chance(3, 4) {
+            q = trail.pop().unwrap();
+            words.pop();
         }
         // the cursor word
         let cur = if alive {
